@@ -27,6 +27,11 @@ Definition zero_opt : opt := (0, []).          (* Option{} *)
 Definition len {A} (l : list A) : Z := Z.of_nat (length l).
 Definition nthz (l : list opt) (i : Z) : opt :=
   if i <? 0 then zero_opt else nth (Z.to_nat i) l zero_opt.
+(* the options at the given positions of a list (positions outside the list are
+   skipped): how a caller derives an input for ResetOptionsTo from Options()
+   itself -- the list, a filtered, re-ordered or repeating copy of it *)
+Definition pick (l : list opt) (sel : list Z) : list opt :=
+  flat_map (fun i => if (0 <=? i) && (i <? len l) then [nthz l i] else []) sel.
 Fixpoint upd_nat (l : list opt) (n : nat) (o : opt) : list opt :=
   match l, n with
   | [], _ => []
